@@ -236,6 +236,22 @@ def gen_axis_cases(r, maxsteps):
                     add(ops, optline("cem", lam, mu, 0, r.choice([1.0, 4.0, 0.25]) if var else 0, init=init, var=var if var == "vec" or var == "scalar" else None,
                                      noise=nz, ppop=pp, psel=r.range(2, min(pp - 1, 8)) if post else None),
                         x0, r.range(3, maxsteps), "cem:init=%s,var=%s,noise=%s,post=%s" % (init, var, noise, post))
+    # --- setters called in the middle of a run (all runs of a case call them before the same step)
+    for rng in RNG:
+        for kind, mids in (("ecma", ("active:0", "active:1", "sigma")), ("cma", ("lb",)), ("vdcma", ("sigma", "pop")), ("cem", ("var", "pop"))):
+            if kind == "cem" and rng: continue
+            for m in mids:
+                for active in ((0, 1) if kind == "ecma" else (None,)):
+                    ops, n, box, x0 = axis_objective(r, kind != "ecma")
+                    steps = r.range(8, 3 * maxsteps)
+                    k = r.range(1, steps)
+                    if m == "sigma": m2 = "sigma:" + fb(r.choice([0.5, 2.0, 2.0 ** -8, 8.0]))
+                    elif m == "lb": m2 = "lb:" + fb(r.choice([2.0 ** -10, 1.0, 0.0, 2.0 ** -4]))
+                    elif m == "var": m2 = "var:" + fb(r.choice([1.0, 2.0 ** -8, 64.0]))
+                    elif m == "pop": m2 = "pop:%d:%d" % ((lambda l: (l, r.range(2, l - 1)))(r.range(8, 30)))
+                    else: m2 = m
+                    add(ops, optline(kind, 0, 0, r.below(3) if kind == "cma" else 2, 0, rng=rng, active=active, mid="%d:%s" % (k, m2)),
+                        x0, steps, "%s:rng=%s,mid=%s" % (kind, rng, m))
     # --- simplex downhill: the three ways to start
     for init in SHORT:
         for _ in range(2):
@@ -285,13 +301,28 @@ def gen_conv_case(r, steps):
     kind = r.choice(["cma", "cma", "cmsa", "ecma", "vdcma", "cem", "simplex"])
     n = r.choice([1, 2, 3, 4, 5]) if kind != "vdcma" else r.choice([2, 3, 4, 5, 6, 8])
     if kind == "cem":
-        n = r.choice([1, 2])    # 10 parents of 100: the maximum-likelihood variance collapses before the mean arrives in higher dimension
-                                # (n=5, seed 862289: stalls at 3.6e-3 after 600 steps) -- premature convergence inherent to the method without noise
+        n = 1                   # 10 parents of 100: the maximum-likelihood variance collapses before the mean arrives in higher dimension
+                                # (n=5, seed 862289: stalls at 3.6e-3 after 600 steps; n=2, seed 680299, start (3, 2.5): stalls at 1.1e-2; a plain
+                                # re-implementation of the method stalls above 1e-6 in about 1 of 400 runs for n=2 and in 0 of 400 for n=1)
+                                # -- premature convergence inherent to the method without noise
     budget = {"cma": steps, "cmsa": steps, "vdcma": 2 * steps, "ecma": 12 * steps, "cem": steps, "simplex": 3 * steps}[kind]
     # CEM converges linearly to the precision of its variance estimate; the default variance 100 needs more steps
     target = {"cem": 1e-6}.get(kind, 1e-10)
     x0 = [r.range(-16, 16) / 4 for _ in range(n)]
-    return ["obj sphere %d" % n, "opt " + kind, "run %d %d %s %s" % (r.range(1, 10 ** 6), budget, fb(target), nums(x0))]
+    # convergence under the non-default configurations too: private generator, every short init overload, plain (1+1)-CMA-ES
+    # without the active update, the three recombination types with the default population sizes
+    rng = r.choice([None, "private"]) if kind not in ("cem", "simplex") else None
+    init = r.choice([None, None, "propose", "points"])
+    oline = "opt " + kind
+    if kind == "ecma":
+        oline = optline("ecma", 0, 0, 0, 0, rng=rng, init=init, active=r.choice([None, 0, 1]))
+    elif kind == "cma":
+        oline = optline("cma", 0, 0, r.below(3), 0, rng=rng, init=init)
+    elif kind in ("cmsa", "vdcma"):
+        oline = optline(kind, 0, 0, 2, 0, rng=rng, init=init)
+    elif init:
+        oline += " init=" + init
+    return ["obj sphere %d" % n, oline, "run %d %d %s %s" % (r.range(1, 10 ** 6), budget, fb(target), nums(x0))]
 
 
 def gen_trace_case(r, maxsteps):
@@ -324,6 +355,14 @@ def gen_axis_traces(r, steps):
             ops.append(optline("ecma", 0, 0, 0, r.choice(SIGMAS), active=active, rng=rng, init=r.choice(inits)))
             ops.append("ecmatrace %d %d %s" % (r.range(1, 10 ** 6), r.range(8, 3 * steps), nums(gen_x0(r, n, None)[0])))
             out.append(ops)
+    for active in (0, 1):      # with a feasibility box the offspring's penalized and unpenalized fitness differ (both are inputs of the model)
+        ops, n, kind, box = gen_objective(r, allow_box=False)
+        lo = [-(r.choice([1, 2, 4]) / r.choice([1, 2])) for _ in range(n)]
+        hi = [(r.choice([1, 2, 4]) / r.choice([1, 2])) for _ in range(n)]
+        ops.append("softbox %s %s" % (nums(lo), nums(hi)))
+        ops.append(optline("ecma", 0, 0, 0, r.choice([0, 1.0, 2.0]), active=active, rng=r.choice([None, "private"]), penalty=r.choice([None, fb(1.0), fb(1e3)])))
+        ops.append("ecmatrace %d %d %s" % (r.range(1, 10 ** 6), r.range(8, 3 * steps), nums([lo[i] + (hi[i] - lo[i]) * r.range(0, 8) / 8 for i in range(n)])))
+        out.append(ops)
     for lb in (None, 2.0 ** -10, 1.0, 0.0):
         for init, cov in ((None, None), ("propose", None), ("full", None), ("full", "diag"), ("full", "dense")):
             ops, n, kind, box = gen_objective(r)
@@ -521,6 +560,8 @@ def correspond(ctx, name, cases, hcmd, dcmd, max_report=6):
         failing = [(all_ops, big)]
     ctx.log(f"{name}: {len(failing)} of {len(cases)} cases FAIL")
     seen = set()
+    for c, r in failing[:12]:
+        ctx.log(f"{name}: failing case {classify(c, r)[0]}: {[o[:160] for o in c[-3:]]}")
     for c, r in failing:
         key, what = classify(c, r)
         if key in seen:
@@ -611,7 +652,8 @@ def run(ctx):
         ctx.hist("case_kind", i["kind"]); ctx.hist("optimizer", i["opt"] + ":" + i["kind"])
         ctx.hist("dimension", i["n"])
         for k, v in i["options"].items():
-            ctx.hist("configuration_axis", "%s:%s=%s" % (i["opt"], k, v if k in ("rng", "init", "set", "cov0", "active", "sig", "var") else ("const" if v.startswith("const") else "lin" if v.startswith("lin") else "set")))
+            ctx.hist("configuration_axis", "%s:%s=%s" % (i["opt"], k, v if k in ("rng", "init", "set", "cov0", "active", "sig", "var") else
+                                                         ("const" if v.startswith("const") else "lin" if v.startswith("lin") else v.split(":")[1] if k == "mid" else "set")))
         if i["lambda"]:
             ctx.hist("lambda_over_n", "default" if not i["lambda"] else min(i["lambda"] // max(i["n"], 1), 64) // 4 * 4)
         if i["kind"] != "coeffs":
